@@ -112,9 +112,11 @@ func (b *c09Base) rootBytes() [][]byte {
 }
 
 func (b *c09Base) keys(r *RNG) [][]byte {
-	var out [][]byte
+	out := [][]byte{b.maxKey} // first: the largest block (the stores' Get on it is what the section limit is about)
 	for _, x := range b.blks {
-		out = append(out, x.Cid.Bytes())
+		if !bytes.Equal(x.Cid.Bytes(), b.maxKey) {
+			out = append(out, x.Cid.Bytes())
+		}
 	}
 	absent := genBlock(r, genOpts{maxData: 8})
 	out = append(out, absent.Cid.Bytes())
@@ -374,7 +376,7 @@ func c09Plan(r *RNG, plan *[]c09Planned, in *c09Input, row c09Row, entries []int
 		case c09EBr:
 			j.Trusted = r.Chance(60)
 			j.Flavour = r.Intn(2)
-		case c09ECarv1, c09ERoot, c09ERootLoad, c09EVersion, c09ELoadIndex, c09EIdxRead, c09EV2Hdr:
+		case c09ECarv1, c09ERoot, c09ERootLoad, c09EVersion, c09ELoadIndex, c09EIdxRead, c09EIdxReadBig, c09EV2Hdr:
 			j.Flavour = r.Intn(2)
 		case c09EBrSkip:
 			j.Flavour = r.Intn(3)
@@ -506,6 +508,25 @@ func c09Produce(c *Ctx) {
 				m := append([]byte(nil), ix...)
 				m[r.Intn(len(m))] ^= pick(r, []byte{0x01, 0x80, 0xff, 0x7f})
 				c09Plan(r, &plan, mk(m, "corrupt-index", false, false), c09DefaultRow, []int{c09EIdxRead})
+			}
+		}
+		// index buckets larger than the reader's first chunk (1 MiB): the growth path of readBucket
+		if a == 0 {
+			bigIx := func(declared, present int) []byte {
+				b := []byte{0x80, 0x08}
+				b = append(b, c09LE(4, 1)...)
+				b = append(b, c09LE(4, 40)...)
+				b = append(b, c09LE(8, uint64(declared))...)
+				return append(b, r.Bytes(present)...)
+			}
+			mib := 1 << 20
+			for i, dp := range [][2]int{{mib + 40, mib + 40}, {mib + 40, mib + 1}, {mib, mib}, {3*mib + 80, 3*mib + 80},
+				{5 * mib, 3 * mib}, {1 << 40, 2*mib + 7}} {
+				e := c09EIdxReadBig
+				if i < 2 || c.Thorough {
+					e = c09EIdxRead // also replayed through the model
+				}
+				c09Plan(r, &plan, mk(bigIx(dp[0], dp[1]), "big-index-bucket", false, false), c09DefaultRow, []int{e})
 			}
 		}
 		// byte corruptions anywhere
